@@ -693,7 +693,10 @@ STREAMS = {
     # cfg: (N, ends, isdoc, qcap)
     "A": (15, "4,5,9,12", "1,0,1,0,1", 2),
     "B": (11, "1,5,9,10,11", "0,1,1,0,0", 1),
+    # beyond C09 (malformed line): the model's account of what the forwarder does after an error item; deviations are drift
+    "C": (15, "4,7,11,12", "1,1,1,0,1", 2),
 }
+STREAM_BAD = {"C": "0,1,0,0,0"}
 
 
 @prop("C09")
@@ -711,7 +714,7 @@ def c09(ctx):
     for name, (n, ends, isdoc, qcap) in STREAMS.items():
         r = ctx.tlc("MC_Stream", cfg="MC_Stream_%s.cfg" % name, dump="states", label="stream " + name, timeout=1200)
         ctx.vh(["g-stream", "-dump", r["dump"], "-n", str(n), "-ends", ends, "-isdoc", isdoc, "-qcap", str(qcap),
-                "-max", "1200" if q else "0", "-property", "C09"], timeout=7200)
+                "-max", "1200" if q else "0", "-property", "C09"] + (["-isbad", STREAM_BAD[name]] if name in STREAM_BAD else []), timeout=7200)
         os.remove(r["dump"])
     ctx.vh(["v-stream", "-seed", str(ctx.seed), "-runs", "2" if q else "9", "-property", "C09"], timeout=3000)
     ctx.exhaustive = not q
